@@ -188,7 +188,7 @@ class Prover:
                 try:
                     hy, gl, nq = smt.expand_native(ob)
                     if nq:
-                        tasks.append(Task(ob, 'native-quantifiers', hy, gl, [('z3-5.1.0', 8)]))
+                        tasks.append(Task(ob, 'native-quantifiers', hy, gl, [('z3-5.1.0', 8), ('cvc5-1.0.3', 8)]))
                         ob._native = (hy, gl)
                         import os as _os
                         if _os.environ.get('VERIF_DUMP_NATIVE') and _os.environ['VERIF_DUMP_NATIVE'] in ob.name:
